@@ -27,6 +27,8 @@ CLAIMS["C04"] = ("magic bytes (writer constant = reader constant = 4F 62 6A 01),
                  "static analysis: constant evaluation + dominance ordering over MIR, writer/reader/spec-table cross-check")
 CLAIMS["C12"] = ("the canonical form's attribute table (kept set and order vs the specification's STRIP/ORDER lists, unknown attributes stripped, sort by table position, PRIMITIVES decision counting kept attributes), fingerprint::<D> = D(canonical_form()) with no other input, Rabin framing (EMPTY seed value, Default/Reset, little-endian output, per-byte table fold), no hash-order iteration in the canonical-form call-graph slice",
                  "static analysis: constant-table evaluation + per-literal edge-region classification + call/dataflow shape over MIR")
+CLAIMS["C20"] = ("parse_list's output is filled in a loop over input_order (no map iteration), duplicate full names among the inputs are rejected on the Some edge of the input-table insert in both entry points, every insert into the parser's definition table is checked (previous value tested or guarded by contains_key on the same key), closed and re-verified inventory of hash-order iterations in the parser's call-graph slice",
+                 "static analysis: loop/def-use shape + Option-edge regions + insert discipline + hash-iteration inventory over MIR")
 NA_DEFAULT = "check under construction in this round (see DESIGN.md); not yet claimed"
 
 
